@@ -232,7 +232,12 @@ class Circuit:
         spec = circuit.__circuit_spec
         # Check circuit size is valid
         n_heralds = len(circuit.heralds["input"])
-        if mode + circuit.n_modes - n_heralds > self.n_modes:
+        # Existing internal (heralded) modes at or above the chosen mode cannot
+        # be used by the added circuit, so are excluded from the available modes
+        n_available = self.n_modes - mode - sum(
+            1 for i in self.__internal_modes if i >= mode
+        )
+        if circuit.n_modes - n_heralds > n_available:
             raise ModeRangeError("Circuit to add is outside of mode range")
 
         # Include any existing internal modes into the circuit to be added
